@@ -91,9 +91,16 @@ func (p Path) Equal(q Path) bool {
 		return false
 	}
 	for i := range p.Elems {
-		if p.Elems[i] != q.Elems[i] {
-			return false
+		a, b := p.Elems[i], q.Elems[i]
+		if a == b {
+			continue
 		}
+		// the same field reached through a pointer conversion between two struct types of identical layout
+		// ((*PduTerminate)(p).IDecode(data) fills PduTerminateResp's fields): same name, same type, same kind of step
+		if a.Field != nil && b.Field != nil && a.Index == b.Index && a.Each == b.Each && a.Field.Name() == b.Field.Name() && types.Identical(a.Field.Type(), b.Field.Type()) {
+			continue
+		}
+		return false
 	}
 	return true
 }
@@ -772,8 +779,9 @@ func (w *walker) ifStmt(s *ast.IfStmt) {
 	if s.Init != nil {
 		w.stmt(s.Init)
 	}
-	// decode guard: if len(data) < K { return ... }
-	if !w.encode && len(w.frames) == 1 {
+	// decode guard: if len(data) < K { return ... } - in IDecode itself, or in the decoder it hands its whole work to
+	// before anything was read
+	if !w.encode && (len(w.frames) == 1 || len(w.seq.Ops) == 0) {
 		if be0, ok := s.Cond.(*ast.BinaryExpr); ok && s.Else == nil && orient(be0, isLenCall).Op == token.LSS {
 			be := orient(be0, isLenCall)
 			if call, ok := be.X.(*ast.CallExpr); ok {
@@ -810,9 +818,23 @@ func (w *walker) ifStmt(s *ast.IfStmt) {
 	var sub []*Op
 	w.ops = &sub
 	w.condStack = append(w.condStack, s.Cond)
+	// inside an inlined helper a `return` in one branch (a guard clause) does not end the helper: what follows the if is
+	// still executed on the other branch. Only when both branches return is the helper over.
+	fr := w.frames[len(w.frames)-1]
+	doneBefore, retBefore := fr.done, fr.ret
 	w.block(s.Body.List)
+	thenDone := fr.done
+	fr.done = doneBefore
+	elseDone := false
 	if s.Else != nil {
 		w.stmt(s.Else)
+		elseDone = fr.done
+	}
+	if len(w.frames) > 1 && !(thenDone && elseDone) {
+		fr.done = doneBefore
+		if !doneBefore {
+			fr.ret = retBefore
+		}
 	}
 	w.condStack = w.condStack[:len(w.condStack)-1]
 	w.ops = save
@@ -1187,6 +1209,23 @@ func (w *walker) returnStmt(s *ast.ReturnStmt) {
 				}
 			}
 		}
+		if r.Kind == "other" && len(s.Results) == 1 {
+			// return helper(...): a module helper that builds the writer itself and returns its Bytes() / BytesWithLength()
+			if _, isCall := s.Results[0].(*ast.CallExpr); isCall {
+				if t, isT := w.eval(s.Results[0]).(vTuple); isT && len(t) == 2 {
+					a, ok1 := t[0].(vTerm)
+					b, ok2 := t[1].(vTerm)
+					if ok1 && ok2 && a.name == b.name && a.idx == 0 && b.idx == 1 && w.termAt == len(w.seq.Ops)+1 {
+						r.Kind, r.Detail = "terminal", a.name
+						if w.seq.Terminal == "" {
+							w.seq.Terminal = a.name
+						} else if w.seq.Terminal != a.name {
+							w.seq.Terminal = "mixed"
+						}
+					}
+				}
+			}
+		}
 		if r.Kind == "other" && len(s.Results) == 2 {
 			a, ok1 := w.eval(s.Results[0]).(vTerm)
 			b, ok2 := w.eval(s.Results[1]).(vTerm)
@@ -1207,7 +1246,9 @@ func (w *walker) returnStmt(s *ast.ReturnStmt) {
 	} else {
 		r.Kind = "other"
 		if len(s.Results) == 1 {
-			switch v := w.eval(s.Results[0]).(type) {
+			evaluated := w.eval(s.Results[0])
+			r.OpsSoFar = len(w.seq.Ops) // a decoder delegated to in the return expression has read by now
+			switch v := evaluated.(type) {
 			case vStructLit:
 				if w.resultRoot != nil {
 					w.store(Path{Root: w.resultRoot}, v, s.Results[0], s.Pos())
@@ -1653,6 +1694,21 @@ func (w *walker) call(e *ast.CallExpr) val {
 					}
 					return vTail{Op: op}
 				}
+			}
+		}
+		// an unexported helper that does a whole PDU's work on values handed to it - it builds its own writer and returns
+		// ([]byte, error), or its own reader and returns error (encodeHeaderOnly(p.Header), decodeHeaderOnly(&p.Header, data))
+		if !callee.Exported() && sig.Recv() == nil {
+			res := sig.Results()
+			whole := false
+			switch {
+			case w.encode && res.Len() == 2 && isByteSlice(res.At(0).Type()) && res.At(1).Type().String() == "error":
+				whole = true
+			case !w.encode && res.Len() == 1 && res.At(0).Type().String() == "error":
+				whole = true
+			}
+			if whole {
+				return w.inline(callee, e, nil)
 			}
 		}
 		return vOpaque{"call of module function " + callee.FullName() + " is not interpreted"}
